@@ -15,7 +15,41 @@ def pool(np, eps, shape, rng):
     return a
 
 
-def check_tree(C, drv, root, shape, tag):
+def apply_edit(root, nodes, edit):
+    """one edit below the root of an already evaluated tree (deterministic given `edit`)"""
+    L = lib.load()
+    np = L['np']
+    _ = root.position
+    t = nodes[edit['t']]
+    how = edit['how']
+    if how == 'new-value':
+        t.value = np.array(t.value, copy=True) * 0.5 + 1.25
+    elif how == 'in-place':
+        t.value = np.array(t.value, copy=True)      # private array ...
+        _ = root.position
+        arr = t.value                               # ... then written through the array itself (no setter runs)
+        arr += 0.75
+    elif how == 'no-parent-links':
+        # the constructor and the left/right setters never set `child.parent`: a tree assembled without
+        # parent links is legal, and its value is still the value of the expression it denotes now
+        for n in nodes:
+            n.parent = None
+        _ = root.position
+        t.value = np.array(t.value, copy=True) - 1.5
+    elif edit['d'] is not None:
+        d_ = nodes[edit['d']]
+        terms = [n for n in nodes if n.type == 'TERMINAL']
+        newt = L['Node'](name=0, type='TERMINAL', value=np.array(terms[0].value, copy=True) - 2.0)
+        par = d_.parent
+        if d_.flag:
+            par.left = newt
+        else:
+            par.right = newt
+            newt.flag = False
+        newt.parent = par
+
+
+def check_tree(C, drv, root, shape, tag, edit=None):
     L = lib.load()
     np = L['np']
     nodes, _ = T.walk(root)
@@ -25,6 +59,9 @@ def check_tree(C, drv, root, shape, tag):
     after = T.canon(root)
     rp = dict(how='eval', tree=T.enc_tree(root), arrays=[None if s is None else enc_bits(s.reshape(-1)) for s in snaps],
               shape=list(shape))
+    if edit is not None:
+        # replay = the tree before the edit, one evaluation, the edit, the evaluation under test
+        rp = dict(edit['pre'], edit=dict(how=edit['how'], t=edit['t'], d=edit['d']))
     if before != after or any(s is not None and not np.array_equal(s, n.value, equal_nan=True) for s, n in zip(snaps, nodes)):
         C.issue('evaluation-modified-tree', 'oracle', rp)
     if not isinstance(val, np.ndarray) or tuple(val.shape) != tuple(shape):
@@ -63,31 +100,14 @@ def check_tree(C, drv, root, shape, tag):
             if worst > tol:
                 C.issue('operator-mismatch', 'correspondence', rp, op=op, ulps=worst, model=m, real=e.tolist())
     # evaluation is a function of the *current* tree: edit it below the root (new terminal value, terminal array
-    # changed in place, subtree re-hung) and evaluate again — every node is compared with the reference again
+    # changed in place, subtree re-hung, parent links absent) and evaluate again — every node is compared again
     if tag != 'edited' and len(nodes) >= 3 and C.rng.random() < 0.5:
-        terms = [n for n in nodes if n.type == 'TERMINAL']
-        t = C.rng.choice(terms)
-        how = C.rng.choice(['new-value', 'in-place', 'rehang'])
-        if how == 'new-value':
-            t.value = np.array(t.value, copy=True) * 0.5 + 1.25
-        elif how == 'in-place':
-            t.value = np.array(t.value, copy=True)      # private array, then changed in place
-            _ = root.position
-            t.value += 0.75
-        else:
-            deep = [n for n in nodes if n.parent is not None and n.parent.parent is not None]
-            if deep:
-                d_ = C.rng.choice(deep)
-                L_ = lib.load()
-                newt = L_['Node'](name=0, type='TERMINAL', value=np.array(terms[0].value, copy=True) - 2.0)
-                par = d_.parent
-                if d_.flag:
-                    par.left = newt
-                else:
-                    par.right = newt
-                    newt.flag = False
-                newt.parent = par
-        check_tree(C, drv, root, shape, 'edited')
+        terms = [i for i, n in enumerate(nodes) if n.type == 'TERMINAL']
+        deep = [i for i, n in enumerate(nodes) if n.parent is not None and n.parent.parent is not None]
+        how = C.rng.choice(['new-value', 'in-place', 'rehang', 'no-parent-links', 'in-place'])
+        edit = dict(how=how, t=C.rng.choice(terms), d=C.rng.choice(deep) if deep else None, pre=rp)
+        apply_edit(root, nodes, edit)
+        check_tree(C, drv, root, shape, 'edited', edit)
     C.case(key=(before, rp['arrays'][0] if rp['arrays'] else None), nontrivial=len(nodes) > 1, kind=tag,
            sample=dict(tree=before, value=np.asarray(val).tolist()) if special or len(C.samples) == 0 else None)
 
@@ -152,7 +172,12 @@ def replay(prop, payload):
     C = Comp(dict(seed=0, tier='quick'), '')
     drv = common.Driver()
     try:
-        check_tree(C, drv, root, tuple(payload['shape']), 'replay')
+        if payload.get('edit'):
+            ed = dict(payload['edit'], pre=payload)
+            apply_edit(root, nodes, ed)
+            check_tree(C, drv, root, tuple(payload['shape']), 'edited', ed)
+        else:
+            check_tree(C, drv, root, tuple(payload['shape']), 'edited')
     finally:
         drv.close()
     return any(i['layer'] == 'oracle' for i in C.issues)
